@@ -201,14 +201,16 @@ def main():
             import io
             from fastparquet import parquet_thrift as pt, schema, core
             root_se = pt.SchemaElement(name="schema", num_children=1)
-            col_se = pt.SchemaElement(name="c", type=pt.Type.INT32,
+            ptype = pt.Type.BOOLEAN if c.get("rle_bool") else pt.Type.INT32
+            penc = pt.Encoding.RLE if c.get("rle_bool") else pt.Encoding.RLE_DICTIONARY
+            col_se = pt.SchemaElement(name="c", type=ptype,
                                       repetition_type=pt.FieldRepetitionType.OPTIONAL if c["optional"] else pt.FieldRepetitionType.REQUIRED)
             helper = schema.SchemaHelper([root_se, col_se])
-            daph = pt.DataPageHeader(num_values=c["n"], encoding=pt.Encoding.RLE_DICTIONARY,
+            daph = pt.DataPageHeader(num_values=c["n"], encoding=penc,
                                      definition_level_encoding=pt.Encoding.RLE, repetition_level_encoding=pt.Encoding.RLE)
             page = bytes.fromhex(c["page"])
             header = pt.PageHeader(type=0, uncompressed_page_size=len(page), compressed_page_size=len(page), data_page_header=daph)
-            md = pt.ColumnMetaData(type=pt.Type.INT32, path_in_schema=["c"], codec=0, num_values=c["n"], encodings=[8],
+            md = pt.ColumnMetaData(type=ptype, path_in_schema=["c"], codec=0, num_values=c["n"], encodings=[8],
                                    total_uncompressed_size=len(page), total_compressed_size=len(page), data_page_offset=0)
             with Spy() as spy:
                 defi, rep, values = core.read_data_page(io.BytesIO(page), helper, header, md, selfmade=bool(c.get("selfmade")))
@@ -219,16 +221,18 @@ def main():
             import io
             from fastparquet import parquet_thrift as pt, schema, core
             root_se = pt.SchemaElement(name="schema", num_children=1)
-            col_se = pt.SchemaElement(name="c", type=pt.Type.INT32,
+            ptype = pt.Type.BOOLEAN if c.get("rle_bool") else pt.Type.INT32
+            col_se = pt.SchemaElement(name="c", type=ptype,
                                       repetition_type=pt.FieldRepetitionType.OPTIONAL if c["optional"] else pt.FieldRepetitionType.REQUIRED)
             helper = schema.SchemaHelper([root_se, col_se])
             page = bytes.fromhex(c["page"])
             dlen = c["dlen"]
             nn = c["n"] - c["nval"]
-            h2 = pt.DataPageHeaderV2(num_values=c["n"], num_nulls=nn, num_rows=c["n"], encoding=pt.Encoding.RLE_DICTIONARY,
+            h2 = pt.DataPageHeaderV2(num_values=c["n"], num_nulls=nn, num_rows=c["n"],
+                                     encoding=pt.Encoding.RLE if c.get("rle_bool") else pt.Encoding.RLE_DICTIONARY,
                                      definition_levels_byte_length=dlen, repetition_levels_byte_length=0, is_compressed=False)
             ph = pt.PageHeader(type=3, uncompressed_page_size=len(page), compressed_page_size=len(page), data_page_header_v2=h2)
-            md = pt.ColumnMetaData(type=pt.Type.INT32, path_in_schema=["c"], codec=0, num_values=c["n"], encodings=[8],
+            md = pt.ColumnMetaData(type=ptype, path_in_schema=["c"], codec=0, num_values=c["n"], encodings=[8],
                                    total_uncompressed_size=len(page), total_compressed_size=len(page), data_page_offset=0)
 
             class Ident:            # a dictionary whose entry number k is k: the output shows the decoded indices
